@@ -5,6 +5,7 @@ CONSTANTS
   Ops = {o1, o2}
   Kind <- KindSSB
   FdOf <- FdSame
+  Dir <- DirR
   Fds = {1}
   Eager = FALSE
 SPECIFICATION FairSpec
